@@ -23,7 +23,7 @@ from checks.validcomp import COMP, NO_STATE, PRESENT, MULTI, OPER
 
 LEAN_TARGETS = ["LyModel.Props.C02"]
 AUDIT = "Audit/C02.lean"
-GENERATED = ["ValidConsts"]
+GENERATED = ["ValidConsts", "OpsFacts"]
 HARNESS = "api_val"
 ASSUMPTIONS = [
     "schemas from family S1x (S1 of the tree base + unique, nested choices, mandatory in cases); one module; no must/when/leafref",
@@ -106,20 +106,27 @@ def run(cx):
 
 def operations(cx, cases):
     """the same data definitions as rpc input / rpc output / notification content: libyang's verdict (lyd_parse_op +
-    lyd_validate_op, XML and JSON) against the specification evaluated on the all-state variant of the schema (inside an operation
-    the config statement is ignored: duplicate leaf-list values and key-less list instances are legal, everything else holds)"""
+    lyd_validate_op, XML and JSON) against
+      (S) the specification evaluated on the all-state variant of the schema, computed IN THE MODEL (`Valid.stateVariant`, driver op
+          `opsspec` given the original schema; theorems `ops_relaxes`, `ops_exact_difference`, … of Props/C02 say what the variant
+          does to the constraints: duplicate values of configuration leaf-lists become legal, everything else holds) — law `ops-iff`;
+      (K) the model of lyd_validate_op for the source tree at hand (`Valid.opsValidate OpFacts.current`, facts read from the C source
+          by tools/extractors/ops.py) — correspondence, verdict per route;
+      (V) the all-state variant the generator computes (validgen.state_variant) against the model's (`opsvariant`), per schema."""
     rng = cx.sub_rng("ops")
     pick = [c for c in cases if getattr(c.s, "yang", None) and not isinstance(c.s, vc.ReplaySchema)
             and c.kind not in ("state-node", "missing-key") and not any(getattr(n, "when", None) for n in c.s.nodes)]
     rng.shuffle(pick)
     pick = pick[:cx.n(1500, 12000)]
     cx.rule("ops: %d of the instances above (valid and singly mutated) sent as rpc input, rpc output (reply) and notification content, XML "
-            "and JSON, plus a leaf of the other direction put into input / output (placement)" % len(pick))
+            "and JSON, plus a leaf of the other direction put into input / output (placement); expected verdict = specification on the "
+            "all-state variant computed by the model from the original schema; the model of lyd_validate_op compared per route; the "
+            "generator's all-state variant compared with the model's per schema" % len(pick))
     variants, lines, specl, info = {}, [], [], {}
     for k, c in enumerate(pick):
-        s2 = variants.get(id(c.s))
-        if s2 is None:
-            s2 = variants[id(c.s)] = vg.state_variant(c.s)
+        if id(c.s) not in variants:
+            variants[id(c.s)] = (len(variants), c.s)
+            specl.append("ov%d %s opsvariant %s %s" % (len(variants) - 1, COMP, tg.hx(c.s.dsl()), tg.hx(c.s.xdsl())))
         place = rng.choice([None, None, "ok", "swap"])
         extra = [None, None]
         if place:
@@ -127,37 +134,59 @@ def operations(cx, cases):
         din, dout = vg.op_docs(c.s, c.t, extra[0]), vg.op_docs(c.s, c.t, extra[1])
         docs = din[0:2] + dout[2:4] + din[4:6]
         lines.append("o%d %s ops %s %s" % (k, COMP, tg.hx(vg.op_module(c.s).encode()), " ".join(tg.hx(d) for d in docs)))
-        specl.append("o%d %s spec %s %s 0 %s" % (k, COMP, tg.hx(s2.dsl()), tg.hx(s2.xdsl()), tg.tok(c.t)))
+        specl.append("o%d %s opsspec %s %s %s" % (k, COMP, tg.hx(c.s.dsl()), tg.hx(c.s.xdsl()), tg.tok(c.t)))
         info[k] = (c, place, docs)
     if not lines:
         return
     rep = cx.run_impl(HARNESS, lines, component=COMP, env=vc.ENV)
-    spec = cx.run_model(vc.heads(list(variants.values())) + specl)
+    spec = cx.run_model(specl)
+    # (V) the generator's transformation against the model's
+    for i, s in variants.values():
+        r = spec.get("ov%d" % i, ["err", "NoReply"])
+        s2 = vg.state_variant(s)
+        want = ["ok", tg.hx(s2.dsl()), tg.hx(s2.xdsl()), "1"]
+        cx.count(("opsvariant", s.name, tg.hx(s.dsl())), True, "ops:variant")
+        if r != want:
+            cx.disagree(COMP, "opsvariant %s (all-state variant: generator vs model; last field 1 = tree view and table of the model's variant agree)"
+                        % s.name, want[:1] + [tg.unhx(want[1]).decode()[:600]] + want[2:], r[:1] + [tg.unhx(x).decode("utf-8", "replace")[:600] if j == 0 else x
+                                                                                                      for j, x in enumerate(r[1:])])
     for k, (c, place, docs) in info.items():
         r, sp = rep.get("o%d" % k, ["err", "NoReply"]), spec.get("o%d" % k, ["err", "NoReply"])
-        if r[0] != "ok" or sp[0] != "ok":
+        if r[0] != "ok" or sp[0] != "ok" or "|" not in sp:
             if r[:2] != ["err", "Crash"]:
                 cx.fail(COMP, "ops: no verdict (%s / %s)" % (" ".join(r[:2]), " ".join(sp[:3])), payload(c, "ops-harness", module=vg.op_module(c.s)))
             continue
-        viol = set(sp[2:])
+        bar = sp.index("|")
+        viol = set(sp[2:bar])
+        mroute = dict(f.split("=", 1) for f in sp[bar + 1:])
         for i, f in enumerate(r[1:]):
             name, res = f.split("=", 1)
             misplaced = place == "swap" and not name.startswith("notif")
             want = not viol and not misplaced
             cx.count(("ops", c.s.name, tg.tok(c.t), name, place), True, "ops:%s:%s%s" % (name.split(".")[0], "valid" if not viol else "invalid", ":misplaced-leaf" if misplaced else ""))
+            # (K) the model of lyd_validate_op for this source tree
+            mv = mroute.get(name.split(".")[0], "?")
+            if (res[0] == "V") != (mv == "V" and not misplaced):
+                cx.disagree(COMP, "opsspec route %s of %s: %s" % (name, specl_line(c), docs[i].decode("utf-8", "replace")[:800]), [res[:120]],
+                            [mv + (" + misplaced leaf" if misplaced else "")])
+            # (S) the law
             if (res[0] == "V") != want:
                 what = ("libyang accepts %s that violates the schema (%s)" % ("{}", ",".join(sorted(viol) or ["a node of the other direction"]))) if res[0] == "V" \
                     else "libyang rejects %s that satisfies every constraint of the schema"
                 kind = {"in": "an rpc input", "out": "an rpc output", "notif": "a notification"}[name.split(".")[0]]
                 cx.fail(COMP, what.format(kind) if "{}" in what else what % kind,
                         payload(c, "ops-iff", route=name, spec=sorted(viol), got=res[:300], doc=docs[i].decode("utf-8", "replace")[:3000],
-                                module=vg.op_module(c.s), placement=place))
+                                module=vg.op_module(c.s), placement=place, model=mv))
             elif res[0] != "V" and viol and not misplaced:
                 kd = vc.dec_err(res[2:].split(";")[0])[0]
                 if kd not in viol and not (kd == "NoKey" and "BadValue" in viol):
                     cx.fail(COMP, "ops: the reported error (%s) is not a constraint the %s violates (%s)" % (kd, name, ",".join(sorted(viol))),
                             payload(c, "ops-tag", route=name, spec=sorted(viol), got=res[:300], doc=docs[i].decode("utf-8", "replace")[:3000],
                                     module=vg.op_module(c.s)))
+
+
+def specl_line(c):
+    return "schema %s instance %s" % (c.s.name, tg.tok(c.t)[:200])
 
 
 def load_corpus(cx):
